@@ -54,7 +54,7 @@ EXPORTS = ("write_rtf", "write_docx", "write_html", "write_pdf")
 FMT = {"write_docx": "docx", "write_html": "html", "write_pdf": "pdf"}
 STUBS = ("ok", "raise_before", "write_then_raise", "returns_list", "returns_none", "returns_str", "missing_path", "html_with_files",
          # the library's own LibreOfficeConverter driven by a fake soffice executable (covers convert.py):
-         "real_ok", "real_exit3", "real_silent", "real_html_files")
+         "real_ok", "real_exit3", "real_silent", "real_html_files", "real_write_then_exit3", "real_empty", "ok_empty")
 REAL_PAYLOAD = b"CONVERTED-BY-FAKE-SOFFICE"
 FAKE_SOFFICE = r"""#!/bin/sh
 MODE=$(cat "$(dirname "$0")/mode")
@@ -73,6 +73,8 @@ case "$MODE" in
   real_ok) printf 'CONVERTED-BY-FAKE-SOFFICE' > "$OUT/$STEM.$FMT";;
   real_exit3) echo "soffice: conversion failed" >&2; exit 3;;
   real_silent) exit 0;;
+  real_write_then_exit3) printf 'TRUNCATED' > "$OUT/$STEM.$FMT"; echo "soffice: crashed while writing" >&2; exit 3;;
+  real_empty) : > "$OUT/$STEM.$FMT";;
   real_html_files) printf 'CONVERTED-BY-FAKE-SOFFICE' > "$OUT/$STEM.$FMT"; mkdir "$OUT/$STEM.${FMT}_files"; printf IMG0 > "$OUT/$STEM.${FMT}_files/img0.png";;
 esac
 exit 0
@@ -112,7 +114,10 @@ class Stub:
             raise RuntimeError("stub: conversion failed before producing output")
         inp = Path(input_files)
         out = Path(output_dir) / f"{inp.stem}.{format}"
-        if b != "missing_path":
+        if b == "ok_empty":
+            out.write_bytes(b"")            # a converter that reports success with a zero-byte output
+            self.written = out
+        elif b != "missing_path":
             out.write_bytes(PAYLOAD + format.encode())
             self.written = out
         if b == "html_with_files":
@@ -326,13 +331,14 @@ def check(case) -> Result:
                     res.fail("file_not_well_formed", tag, "")
         else:
             fmt = FMT[export]
-            if case["stub"] not in ("ok", "html_with_files", "real_ok", "real_html_files"):
+            if case["stub"] not in ("ok", "html_with_files", "real_ok", "real_html_files", "ok_empty", "real_empty"):
                 res.fail("success_despite_converter_failure", tag, f"returned normally with stub behaviour {case['stub']}")
             if not os.path.isfile(target):
                 res.fail("success_without_file", tag, "")
             else:
                 with open(target, "rb") as f:
-                    if f.read() != (REAL_PAYLOAD if case["stub"].startswith("real_") else PAYLOAD + fmt.encode()):
+                    want_bytes = b"" if case["stub"] in ("ok_empty", "real_empty") else (REAL_PAYLOAD if case["stub"].startswith("real_") else PAYLOAD + fmt.encode())
+                    if f.read() != want_bytes:
                         res.fail("target_content", tag, "target does not hold the converter's bytes")
             if export == "write_html" and case["stub"] in ("html_with_files", "real_html_files"):
                 stem = Path(case["name"]).stem
